@@ -13,7 +13,8 @@ Proof.
   destruct ok.
   - intros H; inversion H; subst. intros _. unfold nf. cbn [set_idx set_dev ws_dev]. apply Hok. reflexivity.
   - destruct (abs =? _); [intros H; inversion H; subst; discriminate|].
-    destruct (ws_kind s) as [|[|]]; intros H; inversion H; subst; discriminate.
+    destruct (ws_kind s) as [|[|]]; try (destruct (dev_try_truncate _ _) as [dv' [|]]);
+      intros H; inversion H; subst; discriminate.
 Qed.
 
 Lemma loop_nf : forall blks s s' out, put_many_loop s blks = (s', out) -> is_err out = false -> nf s' = nf s.
@@ -28,6 +29,12 @@ Lemma bs_put_many_nf s blks s' out : bs_put_many s blks = (s', out) -> is_err ou
 Proof.
   unfold bs_put_many. destruct (ws_closed s); [intros H; inversion H; reflexivity|].
   destruct (ws_finalized s); [intros H; inversion H; reflexivity|]. apply loop_nf.
+Qed.
+
+Lemma fbs_put_many_nf s blks s' out : fbs_put_many s blks = (s', out) -> is_err out = false -> nf s' = nf s.
+Proof.
+  unfold fbs_put_many. destruct (ws_closed s || ws_finalized s); [apply bs_put_many_nf|].
+  destruct (bs_sticky s); [intros H; inversion H; reflexivity|apply bs_put_many_nf].
 Qed.
 
 Lemma store_finalize_nf s s' out : store_finalize s = (s', out) -> is_err out = false -> nf s' = nf s.
@@ -49,6 +56,13 @@ Proof.
   intros H. split; [exact (store_finalize_out _ _ _ H)|]. intros He. rewrite (store_finalize_nf _ _ _ H He). reflexivity.
 Qed.
 
+Lemma fbs_finalize_ro_nf s s' out : fbs_finalize_ro s = (s', out) ->
+  (out = ONil \/ is_err out = true) /\ (is_err out = false -> nf s' = nf s).
+Proof.
+  unfold fbs_finalize_ro. destruct (bs_sticky s); [intros H; inversion H; split; [right|]; reflexivity|].
+  apply bs_finalize_ro_nf.
+Qed.
+
 Lemma bs_close_nf s s' out : bs_close s = (s', out) -> nf s' = nf s.
 Proof.
   unfold bs_close. destruct (_ && _); [intros H; inversion H; reflexivity|].
@@ -61,20 +75,20 @@ Proof.
   intros H Hhit. destruct (is_err out) eqn:He; [reflexivity|exfalso].
   assert (Hnf : nf s' = nf s).
   { unfold fstep in H. destruct op; try (inversion H; subst; reflexivity).
-    - revert H. destruct (kn =? 0); intros H; [apply (bs_put_many_nf _ _ _ _ H He)|].
+    - revert H. destruct (kn =? 0); intros H; [apply (fbs_put_many_nf _ _ _ _ H He)|].
       unfold st_put in H. destruct (cid_parse c); [|inversion H; reflexivity].
       destruct (ws_closed s); [inversion H; reflexivity|]. destruct (ws_finalized s); [inversion H; reflexivity|].
       apply (put_one_nf _ _ _ _ _ _ H He).
-    - apply (bs_put_many_nf _ _ _ _ H He).
+    - apply (fbs_put_many_nf _ _ _ _ H He).
     - revert H. destruct (kn =? 0); intros H.
-      + unfold bs_finalize in H. destruct (bs_finalize_ro s) as [s1 r1] eqn:E1. destruct (bs_close s1) as [s2 r2] eqn:E2.
+      + unfold fbs_finalize in H. destruct (fbs_finalize_ro s) as [s1 r1] eqn:E1. destruct (bs_close s1) as [s2 r2] eqn:E2.
         inversion H; subst s' out. rewrite (bs_close_nf _ _ _ E2).
-        destruct (bs_finalize_ro_nf _ _ _ E1) as [Hr Hn]. apply Hn.
+        destruct (fbs_finalize_ro_nf _ _ _ E1) as [Hr Hn]. apply Hn.
         destruct r1; try reflexivity; destruct Hr; try discriminate; exact He.
       + unfold st_finalize in H. destruct (ws_finalized s); [inversion H; reflexivity|].
         destruct (ws_closed s); [inversion H; reflexivity|]. destruct (w_v1 _); [inversion H; reflexivity|].
         rewrite (store_finalize_nf _ _ _ H He). reflexivity.
-    - destruct (bs_finalize_ro_nf _ _ _ H) as [_ Hn]. apply Hn. exact He.
+    - destruct (fbs_finalize_ro_nf _ _ _ H) as [_ Hn]. apply Hn. exact He.
     - apply (bs_close_nf _ _ _ H). }
   unfold fault_hit in Hhit. fold (nf s') (nf s) in Hhit. rewrite Hnf in Hhit.
   rewrite Nat.ltb_irrefl in Hhit. discriminate.
@@ -98,7 +112,7 @@ Section Closed.
     FInv kn o nilroots roots sn (acked o nilroots roots ops (map obs_of tr)).
   Proof.
     intros Hfit Hh Hok Hsm Hopen Hrun.
-    destruct (open_new_clean hdrdec kn o nilroots roots Hfit faults s0 Hopen) as (HI0 & _).
+    destruct (open_new_clean hdrdec kn o nilroots roots Hfit Hh faults s0 Hopen) as (HI0 & _).
     exact (run_inv hdrdec kn o nilroots roots Hfit Hh ops s0 [] sn tr HI0 Hok Hsm Hrun).
   Qed.
 
@@ -135,7 +149,7 @@ Section Closed.
     forallb (op_okb kn) ops = true -> ops_small ops ->
     open_new (kind_of kn) o nilroots roots faults = Ok s0 ->
     frun hdrdec kn s0 ops = (sn, tr) ->
-    w_v1 o = true -> (kn <> 0 -> ws_finalized sn = false) ->
+    w_v1 o = true -> sticky kn sn = false ->
     wf_final (ws_file sn) = Some (roots, acked o nilroots roots ops (map obs_of tr)).
   Proof.
     intros Hfit Hh Hok Hsm Hopen Hrun Hv1 Hns.
@@ -143,18 +157,37 @@ Section Closed.
     apply (session_inv kn o nilroots roots faults ops s0 sn tr); assumption.
   Qed.
 
-  (* a storage Put that returned success found no sticky write error and set none *)
-  Lemma put_ok_not_sticky kn s c d s' :
-    kn <> 0 -> fstep hdrdec kn s (FPut c d) = (s', ONil) -> ws_finalized s' = false.
+  (* a Put / PutMany that returned success found no sticky write error and set none *)
+  Lemma put_one_ok_roots s c d p s' : put_one s c d p = (s', ONil) ->
+    ws_roots s' = ws_roots s /\ ws_finalized s' = ws_finalized s.
   Proof.
-    intros Hkn. unfold fstep. replace (kn =? 0) with false by lia. unfold st_put.
-    destruct (cid_parse c) as [p|]; [|discriminate]. destruct (ws_closed s); [discriminate|].
-    destruct (ws_finalized s) eqn:Ef; [discriminate|]. unfold put_one.
-    destruct (should_put _ _ _ _) as [[|]|e]; try discriminate.
+    unfold put_one. destruct (should_put _ _ _ _) as [[|]|e]; try discriminate.
     - destruct (write_chunks _ _ _) as [[dv abs] ok]. destruct ok.
-      + intros H; inversion H; subst. exact Ef.
-      + destruct (abs =? _); [discriminate|]. destruct (ws_kind s) as [|[|]]; discriminate.
-    - intros H; inversion H; subst. exact Ef.
+      + intros H; inversion H; subst. split; reflexivity.
+      + destruct (abs =? _); [discriminate|].
+        destruct (ws_kind s) as [|[|]]; try (destruct (dev_try_truncate _ _) as [dv' [|]]); discriminate.
+    - intros H; inversion H; subst. split; reflexivity.
+  Qed.
+  Lemma loop_ok_roots : forall blks s s', put_many_loop s blks = (s', ONil) -> ws_roots s' = ws_roots s.
+  Proof.
+    induction blks as [|[c d] t IH]; intros s s' H; cbn [put_many_loop] in H; [inversion H; reflexivity|].
+    destruct (cid_parse c) as [p|]; [|discriminate]. destruct (put_one s c d p) as [s1 r1] eqn:Ep.
+    destruct r1; try discriminate. rewrite (IH _ _ H). apply (put_one_ok_roots _ _ _ _ _ Ep).
+  Qed.
+  Lemma put_ok_not_sticky kn s op s' :
+    (exists c d, op = FPut c d) \/ (exists bs, op = FPutMany bs) -> op_okb kn op = true ->
+    fstep hdrdec kn s op = (s', ONil) -> sticky kn s' = false.
+  Proof.
+    intros Hop Hok. unfold fstep, sticky. destruct (kn =? 0) eqn:Ekn.
+    - assert (Hbs : forall blks, fbs_put_many s blks = (s', ONil) -> bs_sticky s' = false).
+      { intros blks. unfold fbs_put_many, bs_put_many. destruct (ws_closed s); [discriminate|].
+        destruct (ws_finalized s); [discriminate|]. cbn [orb]. destruct (bs_sticky s) eqn:Es; [discriminate|].
+        intros H. unfold bs_sticky in *. rewrite (loop_ok_roots _ _ _ H). exact Es. }
+      destruct Hop as [(c & d & ->) | (bs & ->)]; apply Hbs.
+    - destruct Hop as [(c & d & ->) | (bs & ->)]; [|unfold op_okb in Hok; rewrite Ekn in Hok; discriminate].
+      unfold st_put. destruct (cid_parse c) as [p|]; [|discriminate]. destruct (ws_closed s); [discriminate|].
+      destruct (ws_finalized s) eqn:Ef; [discriminate|]. intros H.
+      rewrite (proj2 (put_one_ok_roots _ _ _ _ _ H)). exact Ef.
   Qed.
 
   Theorem v1_complete_after_successful_put kn o nilroots roots faults pre op s0 sn tr :
@@ -168,14 +201,12 @@ Section Closed.
   Proof.
     intros Hfit Hh Hok Hsm Hopen Hrun Hv1 Hop Hlast.
     apply (v1_always_wellformed kn o nilroots roots faults (pre ++ [op]) s0 sn tr); try assumption.
-    intros Hkn. rewrite frun_app in Hrun. destruct (frun hdrdec kn s0 pre) as [s1 t1].
+    rewrite frun_app in Hrun. destruct (frun hdrdec kn s0 pre) as [s1 t1].
     cbn [frun] in Hrun. destruct (fstep hdrdec kn s1 op) as [s2 o2] eqn:E2.
     inversion Hrun; subst sn tr. clear Hrun. rewrite last_last in Hlast. cbn [snd] in Hlast. subst o2.
-    destruct Hop as [(c & d & ->) | (bs & ->)].
-    - exact (put_ok_not_sticky kn s1 c d s2 Hkn E2).
-    - (* PutMany is not an operation of the storage front-ends *)
-      rewrite forallb_app in Hok. apply andb_true_iff in Hok. destruct Hok as [_ Hok]. cbn [forallb] in Hok.
-      unfold op_okb in Hok. replace (kn =? 0) with false in Hok by lia. discriminate.
+    rewrite forallb_app in Hok. apply andb_true_iff in Hok. destruct Hok as [_ Hok]. cbn [forallb] in Hok.
+    rewrite andb_true_r in Hok.
+    exact (put_ok_not_sticky kn s1 op s2 Hop Hok E2).
   Qed.
 
   (* a Put that returns an error: index untouched; file untouched, or -- plain io.Writer only -- the
@@ -186,7 +217,7 @@ Section Closed.
     open_new (kind_of kn) o nilroots roots faults = Ok s0 ->
     frun hdrdec kn s0 ops = (sn, tr) ->
     fstep hdrdec kn sn (FPut c d) = (s', out) -> is_err out = true ->
-    ws_idx s' = ws_idx sn /\ (ws_file s' = ws_file sn \/ (kn = 3 /\ ws_finalized s' = true)).
+    ws_idx s' = ws_idx sn /\ (ws_file s' = ws_file sn \/ sticky kn s' = true).
   Proof.
     intros Hfit Hh Hok Hsm Hsmb Hopen Hrun Hstep He.
     pose proof (session_inv kn o nilroots roots faults ops s0 sn tr Hfit Hh Hok Hsm Hopen Hrun) as HI.
@@ -194,19 +225,39 @@ Section Closed.
   Qed.
 End Closed.
 
-(* the sticky write error refuses every later Put and Finalize of a storage front-end: error, file
-   and index untouched, the error stays (Finalize also marks the store closed) *)
+(* the sticky write error refuses every later Put, PutMany, Finalize and FinalizeReadOnly: error, file
+   and index untouched, the error stays (StorageCar.Finalize also marks the store closed) *)
 Theorem sticky_error_refuses hdrdec kn s op s' out :
-  kn <> 0 -> ws_finalized s = true -> (exists c d, op = FPut c d) \/ op = FFinalize ->
+  sticky kn s = true -> op_okb kn op = true ->
+  (exists c d, op = FPut c d) \/ (exists bs, op = FPutMany bs) \/ op = FFinalize \/ op = FFinalizeRO ->
   fstep hdrdec kn s op = (s', out) ->
-  is_err out = true /\ ws_file s' = ws_file s /\ ws_idx s' = ws_idx s /\ ws_finalized s' = true.
+  is_err out = true /\ ws_file s' = ws_file s /\ ws_idx s' = ws_idx s /\ sticky kn s' = true.
 Proof.
-  intros Hkn Hf Hop. unfold fstep. replace (kn =? 0) with false by lia.
-  destruct Hop as [(c & d & ->) | ->].
-  - unfold st_put. destruct (cid_parse c); [|intros H; inversion H; subst; repeat split; try reflexivity; exact Hf].
-    destruct (ws_closed s); [intros H; inversion H; subst; repeat split; try reflexivity; exact Hf|].
-    rewrite Hf. intros H; inversion H; subst; repeat split; try reflexivity; exact Hf.
-  - unfold st_finalize. rewrite Hf. intros H; inversion H; subst. repeat split; reflexivity.
+  intros Hst Hok Hop. unfold fstep, sticky in *. destruct (kn =? 0) eqn:Ekn.
+  - assert (Hpm : forall blks, fbs_put_many s blks = (s', out) ->
+              is_err out = true /\ ws_file s' = ws_file s /\ ws_idx s' = ws_idx s /\ bs_sticky s' = true).
+    { intros blks. unfold fbs_put_many, bs_put_many.
+      destruct (ws_closed s); [intros H; inversion H; subst; repeat split; try reflexivity; exact Hst|].
+      destruct (ws_finalized s); [intros H; inversion H; subst; repeat split; try reflexivity; exact Hst|].
+      cbn [orb]. rewrite Hst. intros H; inversion H; subst; repeat split; try reflexivity; exact Hst. }
+    assert (Hro : forall s1 r1, fbs_finalize_ro s = (s1, r1) -> s1 = s /\ is_err r1 = true).
+    { intros s1 r1. unfold fbs_finalize_ro. rewrite Hst. intros H; inversion H; split; reflexivity. }
+    destruct Hop as [(c & d & ->) | [(bs & ->) | [-> | ->]]]; try apply Hpm.
+    + unfold fbs_finalize. pose proof (Hro (fst (fbs_finalize_ro s)) (snd (fbs_finalize_ro s)) (surjective_pairing _)) as Hx.
+      destruct (fbs_finalize_ro s) as [s1 r1]. cbn [fst snd] in Hx. destruct Hx as [-> Hr1].
+      destruct (bs_close s) as [s2 r2] eqn:E2. intros H; inversion H; subst s' out.
+      assert (Hc : ws_file s2 = ws_file s /\ ws_idx s2 = ws_idx s /\ ws_roots s2 = ws_roots s).
+      { revert E2. unfold bs_close. destruct (_ && _); [intros E; inversion E; repeat split; reflexivity|].
+        destruct (ws_closed s); intros E; inversion E; repeat split; reflexivity. }
+      destruct Hc as (Hf & Hi & Hr). split; [destruct r1; try discriminate; reflexivity|].
+      split; [exact Hf|]. split; [exact Hi|]. unfold bs_sticky in *. rewrite Hr. exact Hst.
+    + intros H. destruct (Hro _ _ H) as [-> Hr1]. repeat split; try reflexivity; assumption.
+  - unfold op_okb in Hok. rewrite Ekn in Hok. cbn [orb] in Hok.
+    destruct Hop as [(c & d & ->) | [(bs & ->) | [-> | ->]]]; try discriminate.
+    + unfold st_put. destruct (cid_parse c); [|intros H; inversion H; subst; repeat split; try reflexivity; exact Hst].
+      destruct (ws_closed s); [intros H; inversion H; subst; repeat split; try reflexivity; exact Hst|].
+      rewrite Hst. intros H; inversion H; subst; repeat split; try reflexivity; exact Hst.
+    + unfold st_finalize. rewrite Hst. intros H; inversion H; subst. repeat split; reflexivity.
 Qed.
 
 (* ---- (3) instances: hypotheses are satisfiable, the unrepaired Put is refuted ---------------------------------- *)
@@ -305,16 +356,16 @@ Example failed_put_applies : forall s0 s' out,
   is_err out = true /\ ws_idx s' = ws_idx s0 /\ ws_file s' = ws_file s0.
 Proof.
   intros s0 s' out Hopen Hstep.
-  assert (He : is_err out = true).
+  assert (He : is_err out = true /\ sticky 0 s' = false).
   { pose proof Hopen as Ho. vm_compute in Ho. inversion Ho; subst s0. clear Ho Hopen.
-    vm_compute in Hstep. inversion Hstep; subst. reflexivity. }
-  split; [exact He|].
+    vm_compute in Hstep. inversion Hstep; subst. split; reflexivity. }
+  destruct He as [He Hns]. split; [exact He|].
   assert (Hsm : blk_small (ex_c1, [x61])) by (vm_compute; reflexivity).
   destruct (failed_put_changes_nothing dec_header_canon 0 (ex_opts true) false [] [None; None; None; Some 3] [] s0 s0 []
               ex_c1 [x61] s' out (ex_fits true) ex_hdr_ok eq_refl (Forall_nil _) Hsm Hopen eq_refl Hstep He)
-    as [Hi [Hf|[Hk _]]].
+    as [Hi [Hf|Hst]].
   - split; assumption.
-  - discriminate.
+  - rewrite Hst in Hns. discriminate.
 Qed.
 
 Example v1_applies : forall s0 sn tr,
@@ -324,7 +375,7 @@ Example v1_applies : forall s0 sn tr,
 Proof.
   intros s0 sn tr Hopen Hrun.
   assert (Hack : acked (ex_opts true) false [] [FPut ex_c1 [x61]; FPut ex_c2 [x62]] (map obs_of tr) = [(ex_c2, [x62])]
-                 /\ ws_finalized sn = false).
+                 /\ sticky 2 sn = false).
   { pose proof Hopen as Ho. vm_compute in Ho. inversion Ho; subst s0. clear Ho Hopen.
     vm_compute in Hrun. inversion Hrun; subst. vm_compute. split; reflexivity. }
   destruct Hack as [Hack Hns]. rewrite <- Hack.
@@ -332,5 +383,25 @@ Proof.
     by (repeat constructor; unfold blk_small; vm_compute; reflexivity).
   exact (v1_always_wellformed dec_header_canon 2 (ex_opts true) false [] [None; None; None; Some 2]
            [FPut ex_c1 [x61]; FPut ex_c2 [x62]] s0 sn tr
-           (ex_fits true) ex_hdr_ok eq_refl Hsm Hopen Hrun eq_refl (fun _ => Hns)).
+           (ex_fits true) ex_hdr_ok eq_refl Hsm Hopen Hrun eq_refl Hns).
 Qed.
+
+(* the Truncate of the rewind fails too (or the writer has none): blockstore, CARv2.  The first Put's
+   CID write is cut after 3 bytes, the Truncate entry is a fault: the sticky write error makes the
+   second Put and Finalize fail; nothing claims success *)
+Example truncate_fails_instance :
+  match ex_run 0 false [None; None; None; None; Some 3; Some 0] with
+  | Some (sn, tr) =>
+      map snd tr = [OErr EOther; OErr EOther; OErr EOther] /\ sticky 0 sn = true /\ ws_idx sn = []
+  | None => False
+  end.
+Proof. vm_compute. repeat split; reflexivity. Qed.
+
+(* ... and a storage on a WriterAt in CARv2 mode whose writer cannot truncate *)
+Example truncate_missing_instance :
+  match ex_run 2 false [None; None; None; None; Some 3; Some 0] with
+  | Some (sn, tr) =>
+      map snd tr = [OErr EOther; OErr EOther; OErr EOther] /\ sticky 2 sn = true /\ ws_closed sn = true
+  | None => False
+  end.
+Proof. vm_compute. repeat split; reflexivity. Qed.
